@@ -99,7 +99,7 @@ func irregularHoleShapes() []shape {
 			if n >= d {
 				continue
 			}
-			for j := 1; j <= n && n+j <= d; j++ {
+			for j := 1; j <= n-1 && n+j <= d; j++ { // j < n: the sub-polynomial split at n has degree < 2n
 				add(d, n-j)
 			}
 			if n+2 <= d {
